@@ -61,7 +61,7 @@ impl<'a> G<'a> {
     }
 
     fn int(&mut self, d: u32) -> String {
-        let top = if d == 0 { 4 } else { 27 };
+        let top = if d == 0 { 4 } else { 28 };
         for _ in 0..4 {
             match self.p.below(top) {
                 0 => return format!("{}", self.p.range(0, 9)),
@@ -225,6 +225,16 @@ impl<'a> G<'a> {
                     } else {
                         format!("(if false {{ {a} }} else {{ {b} }})")
                     };
+                }
+                26 => {
+                    // projection straight from a tuple literal: every component is evaluated
+                    let a = self.int(d - 1);
+                    let b = self.int(d - 1);
+                    if self.p.chance(1, 3) {
+                        let c = self.int(d - 1);
+                        return format!("({a}, {b}, {c}).{}", self.p.below(3));
+                    }
+                    return format!("({a}, {b}).{}", self.p.below(2));
                 }
                 25 => {
                     let st = self.string(d - 1);
